@@ -1,12 +1,548 @@
-//! C32 — not built yet.
-use crate::runner::{Outcome, Summary};
-use crate::Ctx;
-use serde_json::Value;
+//! C32 — built-in waveforms sample to the right length and respond linearly (module Waveform).
+//!
+//! replay (spec -> code): a case of spec/mc/MC_Waveform.tla is one state of the parameter-knowledge
+//!   automaton {kind, rate, dur, padL, padR, own, scale, phase, detuning} with the expected projection
+//!   res = {t, shape, len, zeros}.  The harness builds the `Partial<Concrete>` parameter set, calls
+//!   `partial_iq_values_at_sample_rate` and compares the projection.  In fully known states it also
+//!   calls `iq_values_at_sample_rate` on the concrete parameters (must give the same samples) and checks
+//!   the response laws numerically against the run with scale 1 and phase 0 that the model pairs up.
+//! drive (code -> spec): seeded histories with much longer durations / paddings and arbitrary real
+//!   values: a partially known parameter set, then one `supply` per unknown parameter; every result is
+//!   recorded (projection) and validated by TLC against spec/trace/WaveformTrace.tla.
 
-pub fn replay(_ctx: &Ctx, _case: &Value) -> Outcome {
-    panic!("C32: replay not implemented")
+use crate::runner::{Outcome, Summary, Violation};
+use crate::util::{self, s, u};
+use crate::Ctx;
+use num_complex::Complex64;
+use quil_rs::units::Cycles;
+use quil_rs::waveform::builtin::{
+    BoxcarKernel, BuiltinWaveform, BuiltinWaveformParameters, CommonBuiltinParameters, DragGaussian, ErfSquare, Flat,
+    Gaussian, HermiteGaussian, IqSamplesOrPlaceholder, PartialBuiltinWaveformParameters, RaisedCosine,
+};
+use quil_rs::waveform::sampling::IqSamples;
+use quil_rs::waveform::{Concrete, Partial};
+use rand::seq::SliceRandom;
+use rand::Rng;
+use serde_json::{json, Map, Value};
+
+const KINDS: &[(&str, &[&str])] = &[
+    ("flat", &["iq"]),
+    ("gaussian", &["fwhm", "t0"]),
+    ("drag_gaussian", &["fwhm", "t0", "anh", "alpha"]),
+    ("erf_square", &["risetime"]),
+    ("hermite_gaussian", &["fwhm", "t0", "anh", "alpha", "second_order_hrm_coeff"]),
+    ("raised_cosine", &["rolloff"]),
+    ("boxcar_kernel", &[]),
+];
+
+fn own_params(kind: &str) -> &'static [&'static str] {
+    KINDS.iter().find(|k| k.0 == kind).map(|k| k.1).unwrap_or_else(|| panic!("unknown kind {kind}"))
+}
+fn padded(kind: &str) -> bool {
+    matches!(kind, "erf_square" | "raised_cosine")
 }
 
-pub fn drive(_ctx: &Ctx) -> Summary {
-    panic!("C32: drive not implemented")
+#[derive(Clone, Debug, PartialEq)]
+enum Know {
+    Absent,
+    Unknown,
+    Known(f64, String), // value, label
+}
+
+impl Know {
+    fn to_json(&self) -> Value {
+        match self {
+            Know::Absent => json!({"t": "absent", "v": ""}),
+            Know::Unknown => json!({"t": "unknown", "v": ""}),
+            Know::Known(_, l) => json!({"t": "known", "v": l}),
+        }
+    }
+    fn partial(&self) -> Option<Option<f64>> {
+        match self {
+            Know::Absent => None,
+            Know::Unknown => Some(None),
+            Know::Known(v, _) => Some(Some(*v)),
+        }
+    }
+    fn concrete(&self) -> Option<f64> {
+        match self {
+            Know::Known(v, _) => Some(*v),
+            _ => None,
+        }
+    }
+    fn is_zero(&self) -> bool {
+        matches!(self, Know::Known(v, _) if *v == 0.0)
+    }
+}
+
+/// One state of the automaton with concrete numbers attached.
+#[derive(Clone, Debug)]
+struct State {
+    kind: String,
+    rate_label: String,
+    rate: f64,
+    dur: (u64, u64), // samples: num / den
+    pad_l: (u64, u64),
+    pad_r: (u64, u64),
+    own_known: Vec<(String, bool)>,
+    scale: Know,
+    phase: Know,
+    detuning: Know,
+}
+
+fn rate_of(label: &str) -> f64 {
+    label.parse::<f64>().unwrap_or_else(|_| panic!("rate label {label}"))
+}
+fn label_value(label: &str, rate: f64) -> f64 {
+    match label {
+        "nz" => 0.05 * rate, // a detuning of 1/20 cycle per sample
+        l if l.contains('/') => {
+            let (a, b) = l.split_once('/').unwrap();
+            a.parse::<f64>().unwrap() / b.parse::<f64>().unwrap()
+        }
+        l => l.parse::<f64>().unwrap_or_else(|_| panic!("value label {l}")),
+    }
+}
+fn q_of(v: &Value) -> (u64, u64) {
+    (u(v, "num"), u(v, "den"))
+}
+fn q_json(q: (u64, u64)) -> Value {
+    json!({"num": q.0, "den": q.1})
+}
+fn know_of(v: &Value, rate: f64) -> Know {
+    match v["t"].as_str() {
+        Some("absent") => Know::Absent,
+        Some("unknown") => Know::Unknown,
+        Some("known") => {
+            let l = s(v, "v");
+            Know::Known(label_value(&l, rate), l)
+        }
+        other => panic!("knowledge tag {other:?}"),
+    }
+}
+
+/// seconds for num/den samples.  An aligned non-zero padding must not exceed its sample count after the
+/// code's own f64 multiplication (j / rate * rate may be j + 1ulp when the rate is not a power of two):
+/// the generators only use aligned paddings where the arithmetic is exact (see MC_Waveform!PadPairs).
+fn seconds(q: (u64, u64), rate: f64) -> f64 {
+    q.0 as f64 / q.1 as f64 / rate
+}
+
+impl State {
+    fn from_case(c: &Value) -> State {
+        let kind = s(c, "kind");
+        let rate_label = s(c, "rate");
+        let rate = rate_of(&rate_label);
+        let own_known = own_params(&kind).iter().map(|p| (p.to_string(), c["own"][*p].as_str() == Some("known"))).collect();
+        State {
+            kind,
+            rate,
+            dur: q_of(&c["dur"]),
+            pad_l: q_of(&c["padL"]),
+            pad_r: q_of(&c["padR"]),
+            own_known,
+            scale: know_of(&c["scale"], rate),
+            phase: know_of(&c["phase"], rate),
+            detuning: know_of(&c["detuning"], rate),
+            rate_label,
+        }
+    }
+    fn to_json(&self) -> Value {
+        let mut own = Map::new();
+        for (p, k) in &self.own_known {
+            own.insert(p.clone(), json!(if *k { "known" } else { "unknown" }));
+        }
+        json!({"kind": self.kind, "rate": self.rate_label, "dur": q_json(self.dur), "padL": q_json(self.pad_l),
+               "padR": q_json(self.pad_r), "own": Value::Object(own), "scale": self.scale.to_json(),
+               "phase": self.phase.to_json(), "detuning": self.detuning.to_json()})
+    }
+    fn known(&self, p: &str) -> bool {
+        self.own_known.iter().any(|(n, k)| n == p && *k)
+    }
+    fn something_unknown(&self) -> bool {
+        self.own_known.iter().any(|(_, k)| !*k) || [&self.scale, &self.phase, &self.detuning].iter().any(|k| **k == Know::Unknown)
+    }
+    fn aligned(&self) -> bool {
+        self.dur.0 % self.dur.1 == 0
+    }
+    /// the length the statement demands (independent of harness and model: count + rounded-up paddings)
+    fn expected_len(&self) -> usize {
+        let ceil = |q: (u64, u64)| q.0.div_ceil(q.1) as usize;
+        (self.dur.0 / self.dur.1) as usize + if padded(&self.kind) { ceil(self.pad_l) + ceil(self.pad_r) } else { 0 }
+    }
+    /// value of an own real parameter (fixed per kind, scaled to the sample period)
+    fn own_value(&self, p: &str) -> f64 {
+        let t = 1.0 / self.rate;
+        match p {
+            "fwhm" => 2.0 * t,
+            "t0" => 1.5 * t,
+            "anh" => -0.21 * self.rate,
+            "alpha" => 0.7,
+            "second_order_hrm_coeff" => 0.4,
+            "risetime" => 1.0 * t,
+            "rolloff" => 0.5,
+            other => panic!("own parameter {other}"),
+        }
+    }
+    fn opt(&self, p: &str) -> Option<f64> {
+        self.known(p).then(|| self.own_value(p))
+    }
+    fn iq(&self) -> Complex64 {
+        Complex64::new(0.6, -0.3)
+    }
+    fn partial_waveform(&self) -> BuiltinWaveform<Partial<Concrete>> {
+        let (pl, pr) = (seconds(self.pad_l, self.rate), seconds(self.pad_r, self.rate));
+        match self.kind.as_str() {
+            "flat" => Flat::<Partial<Concrete>> { iq: self.known("iq").then(|| self.iq()) }.into(),
+            "gaussian" => Gaussian::<Partial<Concrete>> { fwhm: self.opt("fwhm"), t0: self.opt("t0") }.into(),
+            "drag_gaussian" => DragGaussian::<Partial<Concrete>> {
+                fwhm: self.opt("fwhm"), t0: self.opt("t0"), anh: self.opt("anh"), alpha: self.opt("alpha") }.into(),
+            "erf_square" => ErfSquare::<Partial<Concrete>> { risetime: self.opt("risetime"), pad_left: pl, pad_right: pr }.into(),
+            "hermite_gaussian" => HermiteGaussian::<Partial<Concrete>> {
+                fwhm: self.opt("fwhm"), t0: self.opt("t0"), anh: self.opt("anh"), alpha: self.opt("alpha"),
+                second_order_hrm_coeff: self.opt("second_order_hrm_coeff") }.into(),
+            "raised_cosine" => RaisedCosine::<Partial<Concrete>> { rolloff: self.opt("rolloff"), pad_left: pl, pad_right: pr }.into(),
+            "boxcar_kernel" => BuiltinWaveform::BoxcarKernel(BoxcarKernel),
+            other => panic!("unknown kind {other}"),
+        }
+    }
+    fn concrete_waveform(&self) -> BuiltinWaveform<Concrete> {
+        let (pl, pr) = (seconds(self.pad_l, self.rate), seconds(self.pad_r, self.rate));
+        let v = |p: &str| self.own_value(p);
+        match self.kind.as_str() {
+            "flat" => Flat::<Concrete> { iq: self.iq() }.into(),
+            "gaussian" => Gaussian::<Concrete> { fwhm: v("fwhm"), t0: v("t0") }.into(),
+            "drag_gaussian" => DragGaussian::<Concrete> { fwhm: v("fwhm"), t0: v("t0"), anh: v("anh"), alpha: v("alpha") }.into(),
+            "erf_square" => ErfSquare::<Concrete> { risetime: v("risetime"), pad_left: pl, pad_right: pr }.into(),
+            "hermite_gaussian" => HermiteGaussian::<Concrete> {
+                fwhm: v("fwhm"), t0: v("t0"), anh: v("anh"), alpha: v("alpha"), second_order_hrm_coeff: v("second_order_hrm_coeff") }.into(),
+            "raised_cosine" => RaisedCosine::<Concrete> { rolloff: v("rolloff"), pad_left: pl, pad_right: pr }.into(),
+            "boxcar_kernel" => BuiltinWaveform::BoxcarKernel(BoxcarKernel),
+            other => panic!("unknown kind {other}"),
+        }
+    }
+    fn partial_common(&self) -> CommonBuiltinParameters<Partial<Concrete>> {
+        CommonBuiltinParameters {
+            duration: seconds(self.dur, self.rate),
+            scale: self.scale.partial(),
+            phase: self.phase.partial().map(Cycles),
+            detuning: self.detuning.partial(),
+        }
+    }
+    fn concrete_common(&self, scale: Option<f64>, phase: Option<f64>) -> CommonBuiltinParameters<Concrete> {
+        CommonBuiltinParameters { duration: seconds(self.dur, self.rate), scale, phase: phase.map(Cycles), detuning: self.detuning.concrete() }
+    }
+}
+
+/// projection of a real result: {t, shape, len, zeros}
+fn project(r: &Result<IqSamplesOrPlaceholder, quil_rs::waveform::sampling::SamplingError>) -> Value {
+    use quil_rs::waveform::sampling::SamplingError;
+    match r {
+        Err(SamplingError::MisalignedDuration { .. }) => json!({"t": "error", "shape": "misaligned", "len": 0, "zeros": false}),
+        Err(_) => json!({"t": "error", "shape": "out_of_range", "len": 0, "zeros": false}),
+        Ok(IqSamplesOrPlaceholder::Placeholder(p)) => {
+            let shape = if matches!(p, IqSamples::Flat { .. }) { "flat" } else { "vec" };
+            json!({"t": "placeholder", "shape": shape, "len": p.sample_count(), "zeros": false})
+        }
+        Ok(IqSamplesOrPlaceholder::Samples(sm)) => {
+            let shape = if matches!(sm, IqSamples::Flat { .. }) { "flat" } else { "vec" };
+            let zeros = sm.iter().all(|c| c.re == 0.0 && c.im == 0.0);
+            json!({"t": "samples", "shape": shape, "len": sm.sample_count(), "zeros": zeros})
+        }
+    }
+}
+
+/// The property itself on (state, projected real result): what is a VIOLATION.
+fn property_failures(st: &State, res: &Value) -> Vec<(String, String)> {
+    let mut fails = vec![];
+    let t = res["t"].as_str().unwrap_or("");
+    if !st.aligned() {
+        return fails; // the statement speaks about aligned durations only
+    }
+    if t == "error" {
+        fails.push(("length".to_string(), format!("a sampling error ({}) for an aligned duration", res["shape"])));
+        return fails;
+    }
+    let len = res["len"].as_u64().unwrap_or(u64::MAX) as usize;
+    if len != st.expected_len() {
+        fails.push(("length".to_string(), format!("{len} samples, the statement demands {}", st.expected_len())));
+    }
+    let unknown = st.something_unknown();
+    let zs = st.scale.is_zero();
+    let zeros = res["zeros"].as_bool().unwrap_or(false);
+    if !unknown && t != "samples" {
+        fails.push(("shape".to_string(), "a placeholder although every parameter is known".to_string()));
+    }
+    if unknown && !zs && t != "placeholder" {
+        fails.push(("shape".to_string(), "samples although a needed parameter is unknown".to_string()));
+    }
+    if unknown && zs && !(t == "placeholder" || zeros) {
+        fails.push(("shape".to_string(), "non-zero samples although a parameter is unknown".to_string()));
+    }
+    if !unknown && zs && !zeros {
+        fails.push(("zero scale".to_string(), "non-zero samples for scale 0".to_string()));
+    }
+    fails
+}
+
+fn close(a: Complex64, b: Complex64, mag: f64) -> bool {
+    (a - b).norm() <= 1e-12 * mag.max(1.0)
+}
+
+/// Fully known state: partial call = concrete call, and the response laws against the paired run.
+fn numeric_laws(st: &State, partial: &IqSamples<Complex64>, o: &mut Outcome) {
+    let what = || st.to_json().to_string();
+    let direct = st.concrete_waveform().iq_values_at_sample_rate(st.concrete_common(st.scale.concrete(), st.phase.concrete()), st.rate);
+    let direct = match direct {
+        Ok(d) => d,
+        Err(e) => {
+            o.violate(Violation::new("partial then known", json!("the samples of the partial call"), json!(format!("error: {e}"))).note(what()));
+            return;
+        }
+    };
+    let a: Vec<Complex64> = partial.iter().cloned().collect();
+    let b: Vec<Complex64> = direct.iter().cloned().collect();
+    if a.len() != partial.sample_count() || b.len() != direct.sample_count() {
+        o.violate(Violation::new("length", json!("sample_count() = number of samples"), json!(format!("{} vs {}", a.len(), partial.sample_count()))).note(what()));
+    }
+    if a.len() != b.len() || a.iter().zip(&b).any(|(x, y)| !close(*x, *y, y.norm())) {
+        o.violate(Violation::new("partial then known", json!(format!("{} samples equal to the concrete call's", b.len())), json!(format!("{} samples, different", a.len()))).note(what()));
+    }
+    // the paired run: scale 1, phase 0, everything else the same
+    let s_val = st.scale.concrete().unwrap_or(1.0);
+    let p_val = st.phase.concrete().unwrap_or(0.0);
+    let unit = match st.concrete_waveform().iq_values_at_sample_rate(st.concrete_common(Some(1.0), Some(0.0)), st.rate) {
+        Ok(d) => d,
+        Err(e) => {
+            o.diverge(format!("paired run (scale 1, phase 0) fails: {e}"));
+            return;
+        }
+    };
+    let unit: Vec<Complex64> = unit.iter().cloned().collect();
+    if unit.len() != b.len() {
+        o.violate(Violation::new("length", json!(format!("{} samples as for scale 1, phase 0", unit.len())), json!(b.len())).note(what()));
+        return;
+    }
+    let factor = Complex64::from_polar(s_val, 2.0 * std::f64::consts::PI * p_val);
+    // the rounding error of cis(a + b) against cis(a) * cis(b) grows with the accumulated phase
+    // (detuning cycles per sample times the number of samples): the tolerance is scaled with it
+    let cycles = 1.0 + p_val.abs() + st.detuning.concrete().unwrap_or(0.0).abs() / st.rate * b.len() as f64;
+    for (i, (x, u1)) in b.iter().zip(&unit).enumerate() {
+        let want = factor * u1;
+        let ok = if s_val == 0.0 { x.norm() == 0.0 } else { close(*x, want, want.norm().max(1.0) * cycles) };
+        if !ok {
+            o.violate(
+                Violation::new(if s_val == 0.0 { "zero scale" } else { "response" },
+                               json!(format!("sample {i} = scale * exp(2 pi i phase) * unit sample = {want}")), json!(format!("{x}")))
+                    .note(format!("scale {s_val}, phase {p_val} cycles; {}", what())),
+            );
+            break;
+        }
+    }
+    o.sub_evaluations += 2;
+}
+
+fn run_state(st: &State, want: Option<&Value>, o: &mut Outcome) -> Value {
+    let real = st.partial_waveform().partial_iq_values_at_sample_rate(st.partial_common(), st.rate);
+    let got = project(&real);
+    let fails = property_failures(st, &got);
+    for (obs, text) in &fails {
+        o.violate(Violation::new(obs, want.cloned().unwrap_or(json!({"len": st.expected_len()})), got.clone()).note(format!("{text}; {}", st.to_json())));
+    }
+    if let Some(w) = want {
+        if fails.is_empty() && *w != got {
+            // the model says zeros = FALSE only when it does not KNOW them to be zero
+            let same_but_zeros = w["t"] == got["t"] && w["shape"] == got["shape"] && w["len"] == got["len"] && w["zeros"] == json!(false);
+            if !same_but_zeros {
+                o.diverge(format!("result {got} differs from the model's {w} but satisfies the property; {}", st.to_json()));
+            }
+        }
+    }
+    if st.aligned() && !st.something_unknown() {
+        if let Ok(IqSamplesOrPlaceholder::Samples(sm)) = &real {
+            numeric_laws(st, sm, o);
+        }
+    }
+    got
+}
+
+fn nontrivial(st: &State) -> bool {
+    let k = st.dur.0 / st.dur.1;
+    let pad = padded(&st.kind) && (st.pad_l.0 > 0 || st.pad_r.0 > 0);
+    let non_default = matches!(&st.scale, Know::Known(v, _) if *v != 1.0) || matches!(&st.phase, Know::Known(v, _) if *v != 0.0);
+    st.aligned() && k >= 1 && (pad || non_default || st.something_unknown())
+}
+
+pub fn replay(_ctx: &Ctx, case: &Value) -> Outcome {
+    if let Some(h) = case.get("history") {
+        return replay_history(h);
+    }
+    let st = State::from_case(case);
+    let mut o = Outcome::ok(nontrivial(&st));
+    run_state(&st, Some(&case["res"]), &mut o);
+    o
+}
+
+/// A recorded history judged again on the real code (replay of a trace-validation rejection).
+fn replay_history(h: &Value) -> Outcome {
+    let mut o = Outcome::ok(true);
+    let mut st: Option<State> = None;
+    for e in h.as_array().cloned().unwrap_or_default() {
+        match e["ev"].as_str() {
+            Some("reset") => {
+                let mut s0 = State::from_case(&e);
+                apply_numbers(&mut s0, &e);
+                run_state(&s0, None, &mut o);
+                st = Some(s0);
+            }
+            Some("supply") => {
+                if let Some(cur) = st.as_mut() {
+                    let p = s(&e, "p");
+                    let val = e["value"].as_str().and_then(|x| x.parse::<f64>().ok()).unwrap_or(0.0);
+                    let label = s(&e, "v");
+                    match p.as_str() {
+                        "scale" => cur.scale = Know::Known(val, label),
+                        "phase" => cur.phase = Know::Known(val, label),
+                        "detuning" => cur.detuning = Know::Known(val, label),
+                        own => {
+                            for (n, k) in cur.own_known.iter_mut() {
+                                if n == own {
+                                    *k = true;
+                                }
+                            }
+                        }
+                    }
+                    let cur = cur.clone();
+                    run_state(&cur, None, &mut o);
+                }
+            }
+            _ => {}
+        }
+    }
+    o
+}
+
+/// recorded histories carry the real numbers of the known common parameters next to their labels
+fn apply_numbers(st: &mut State, e: &Value) {
+    for (name, slot) in [("scale", &mut st.scale), ("phase", &mut st.phase), ("detuning", &mut st.detuning)] {
+        if let Know::Known(_, l) = slot.clone() {
+            if let Some(v) = e["values"][name].as_str().and_then(|x| x.parse::<f64>().ok()) {
+                *slot = Know::Known(v, l);
+            }
+        }
+    }
+}
+
+// ------------------------------------------------------------------------------------------- drive
+
+fn label_of(v: f64) -> String {
+    if v == 0.0 { "0".into() } else { "nz".into() }
+}
+
+fn random_known(r: &mut impl Rng, what: &str, rate: f64) -> Know {
+    let v = match what {
+        "scale" => if r.gen_bool(0.2) { 0.0 } else { r.gen_range(-2.0..2.0) },
+        "phase" => if r.gen_bool(0.2) { 0.0 } else { r.gen_range(-1.0..1.0) },
+        _ => if r.gen_bool(0.4) { 0.0 } else { r.gen_range(-0.2..0.2) * rate },
+    };
+    Know::Known(v, label_of(v))
+}
+
+pub fn drive(ctx: &Ctx) -> Summary {
+    let count = ctx.arg_u64("n", 200);
+    let max_k = ctx.arg_u64("maxk", 300);
+    let path = ctx.arg_str("out").expect("--out");
+    let mut out = std::io::BufWriter::new(std::fs::File::create(path).expect("create trace"));
+    let mut rng = util::rng(ctx.seed, 3200);
+    let mut sum = Summary::default();
+    // (label, exact binary arithmetic for aligned paddings?)
+    let rates: &[(&str, bool)] = &[("1", true), ("4", true), ("64", true), ("1e9", false), ("2.5e8", false), ("1e6", false)];
+    for h in 0..count {
+        let (kind, own) = KINDS[(h as usize) % KINDS.len()];
+        let (rate_label, exact) = *rates.choose(&mut rng).unwrap();
+        let rate = rate_of(rate_label);
+        let mut k = if h < 14 { h / 7 } else { rng.gen_range(1..=max_k) };
+        if (14..35).contains(&h) && !exact {
+            // a duration whose f64 product with the rate lands just BELOW the integer (round vs floor)
+            if let Some(kk) = (1..=max_k.max(200)).filter(|kk| (*kk as f64 / rate) * rate < *kk as f64).nth((h % 5) as usize) {
+                k = kk;
+            }
+        }
+        let misaligned = h % 23 == 22;
+        let pad = |r: &mut rand_chacha::ChaCha8Rng| -> (u64, u64) {
+            match r.gen_range(0..4) {
+                0 => (0, 1),
+                1 if exact => (r.gen_range(1..=20), 1),
+                2 => (4 * r.gen_range(0..=20u64) + 1, 4), // a quarter above an integer: ceil != round
+                _ => (2 * r.gen_range(1..=20u64) - 1, 2),  // half-odd: ceil != floor
+            }
+        };
+        let (pad_l, pad_r) = if padded(kind) { (pad(&mut rng), pad(&mut rng)) } else { ((0, 1), (0, 1)) };
+        let mut final_state = State {
+            kind: kind.to_string(),
+            rate_label: rate_label.to_string(),
+            rate,
+            dur: if misaligned { (2 * k + 1, 2) } else { (k, 1) },
+            pad_l,
+            pad_r,
+            own_known: own.iter().map(|p| (p.to_string(), true)).collect(),
+            scale: if rng.gen_bool(0.25) { Know::Absent } else { random_known(&mut rng, "scale", rate) },
+            phase: if rng.gen_bool(0.25) { Know::Absent } else { random_known(&mut rng, "phase", rate) },
+            detuning: if rng.gen_bool(0.4) { Know::Absent } else { random_known(&mut rng, "detuning", rate) },
+        };
+        if h % 11 == 3 {
+            final_state.scale = Know::Known(0.0, "0".into());
+        }
+        // what is unknown at the start, and in which order it becomes known
+        let mut todo: Vec<String> = vec![];
+        let mut st = final_state.clone();
+        for (p, kn) in st.own_known.iter_mut() {
+            if rng.gen_bool(0.6) {
+                *kn = false;
+                todo.push(p.clone());
+            }
+        }
+        for (name, slot) in [("scale", &mut st.scale), ("phase", &mut st.phase), ("detuning", &mut st.detuning)] {
+            if *slot != Know::Absent && rng.gen_bool(0.5) {
+                *slot = Know::Unknown;
+                todo.push(name.to_string());
+            }
+        }
+        todo.shuffle(&mut rng);
+        let mut o = Outcome::ok(nontrivial(&st));
+        let values = |s0: &State| json!({"scale": s0.scale.concrete().map(|v| format!("{v:?}")).unwrap_or_default(),
+                                          "phase": s0.phase.concrete().map(|v| format!("{v:?}")).unwrap_or_default(),
+                                          "detuning": s0.detuning.concrete().map(|v| format!("{v:?}")).unwrap_or_default()});
+        let mut res = run_state(&st, None, &mut o);
+        let mut ev = st.to_json();
+        ev["ev"] = json!("reset");
+        ev["res"] = res.clone();
+        ev["values"] = values(&st);
+        util::emit(&mut out, &ev);
+        util::emit(&mut out, &json!({"ev": "detail", "res": res}));
+        let mut events = 2;
+        for p in todo {
+            let prev_len = res["len"].clone();
+            let (label, value) = match p.as_str() {
+                "scale" => { st.scale = final_state.scale.clone(); (st.scale.to_json()["v"].clone(), st.scale.concrete()) }
+                "phase" => { st.phase = final_state.phase.clone(); (st.phase.to_json()["v"].clone(), st.phase.concrete()) }
+                "detuning" => { st.detuning = final_state.detuning.clone(); (st.detuning.to_json()["v"].clone(), st.detuning.concrete()) }
+                own_p => {
+                    for (n, kn) in st.own_known.iter_mut() {
+                        if n == own_p {
+                            *kn = true;
+                        }
+                    }
+                    (json!(""), None)
+                }
+            };
+            res = run_state(&st, None, &mut o);
+            util::emit(&mut out, &json!({"ev": "supply", "p": p, "v": label, "value": value.map(|v| format!("{v:?}")).unwrap_or_default(), "res": res, "prev_len": prev_len}));
+            util::emit(&mut out, &json!({"ev": "detail", "res": res}));
+            events += 2;
+        }
+        o.count_n("events", events);
+        sum.absorb(&st.to_json(), &o, true);
+    }
+    sum
 }
